@@ -167,6 +167,9 @@ impl Property for C01 {
                     (gen_label(&mut rng, 2), true),
                 ];
                 for (li, (label, prime)) in labels.iter().enumerate() {
+                    if crate::expired() {
+                        return;
+                    }
                     for reuse_on in [true, false] {
                         let full = label_bytes(label).len();
                         let written = if *prime && reuse_on { 0 } else { full };
